@@ -3,7 +3,9 @@
 package verifharness_test
 
 import (
+	"fmt"
 	"math/rand/v2"
+	"strconv"
 	"strings"
 )
 
@@ -53,6 +55,9 @@ func hostileOriginValues(o OriginSpec) []string {
 		pre + "[evil.org/." + o.Host + "]",
 		pre + hostS + ":080", pre + hostS + ":0", pre + hostS + ":65536", pre + hostS + ":123456", pre + hostS + ":", pre + hostS + ":80", pre + hostS + ":443", pre + hostS + ":65535",
 		pre + hostS + ":+80", pre + hostS + ":8 0", pre + hostS + ":8080:8080",
+		// port numerals that are congruent to an allowed port (or to "no port") modulo 2^64 / 2^32 (lesson of seeded changes C03-p, C08-p)
+		pre + hostS + ":18446744073709551616", pre + hostS + ":18446744073709551617", pre + hostS + ":" + u64plus(o.Port), pre + hostS + ":" + u64plus(8080), pre + hostS + ":" + u64plus(443),
+		pre + hostS + ":36893488147419103232", pre + hostS + ":4294967296", pre + hostS + ":" + strconv.Itoa(4294967296+max(o.Port, 1)), pre + hostS + ":1" + strings.Repeat("0", 64),
 		s + "\x00", pre + "\x00" + hostS, pre + hostS + "\x80", pre + "\xff" + hostS, pre + hostS[:len(hostS)/2] + "\xc3\xa9" + hostS[len(hostS)/2:],
 		"null", "", "*", pre, o.Scheme + ":" + hostS, o.Scheme + ":/" + hostS, "//" + hostS, hostS,
 		pre + hostS + ".", pre + "." + hostS, pre + strings.Replace(hostS, ".", "..", 1), pre + "a" + hostS, pre + "a." + hostS, pre + hostS + ".evil.org",
@@ -209,4 +214,13 @@ func sharesPrefix(a string, bs []string, n int) bool {
 		}
 	}
 	return false
+}
+
+// u64plus renders 2^64 + p in decimal.
+func u64plus(p int) string {
+	if p < 0 {
+		p = 0
+	}
+	const low = 9551616 // 2^64 = 18446744073709551616
+	return "1844674407370" + fmt.Sprintf("%07d", low+p)
 }
